@@ -812,7 +812,12 @@ fn selection_checks(ctx: &mut Ctx, ps: &mut Passes, fam_prefix: &str, query: &st
     let mut kws = vec![];
     c_keywords(tree, &mut kws);
     if std::str::from_utf8(&inp.bytes).is_err() {
-        ctx.count("filter:input-with-invalid-utf8-judged");
+        ctx.count(&format!("{}:input-with-invalid-utf8-judged", fam_prefix));
+        // coverage: does the verdict of some line hinge on a wildcard gap spanning the invalid bytes
+        // (it would change if a gap could not cross them, as it cannot cross a newline)?
+        if inp.lines.iter().any(|l| l.contains('\u{FFFD}') && sem(tree, strip_terminator(l)) != sem(tree, &strip_terminator(l).replace('\u{FFFD}', "\n"))) {
+            ctx.count(&format!("{}:verdict-hinges-on-invalid-bytes-inside-a-wildcard-gap", fam_prefix));
+        }
     }
     if kws.iter().any(|k| kwgen::has_nonascii_cased(&k.1)) || inp.lines.iter().any(|l| kwgen::has_nonascii_cased(l)) {
         ctx.case(&sel_fam, "", "skip", json!({"why": "cased non-ASCII letter (the oracle is ASCII-case only)"}));
